@@ -1,6 +1,7 @@
 (** C01 — end-to-end sessions accept only fresh, authentic messages from the other end. *)
 From Coq Require Import List NArith String.
-From MM Require Import Lib.Bytes Model.Session Proofs.SessionProofs Proofs.SessionWitnesses Generated.C01.
+From Coq Require Import Bool.
+From MM Require Import Lib.Bytes Model.Session Model.Rekey Proofs.SessionProofs Proofs.SessionWitnesses Proofs.RekeyProofs Generated.C01.
 Import ListNotations.
 Local Open Scope N_scope.
 
@@ -150,3 +151,44 @@ Theorem C01_source_facts :
   gen_c01_recv_counter_writers = ["Decrypt"%string].
 Proof. repeat split; try reflexivity; try (vm_compute; discriminate). Qed.
 Print Assumptions C01_source_facts.
+
+(** ** Around the SessionKey: what the tunnel code must not undo
+
+    The theorems above are about crypto.SessionKey.  Three things in the code
+    around it decide whether an endpoint really only accepts what the theorem
+    allows; each is regenerated from the source on every run and exercised on
+    the real code by the harness.
+
+    (1) The per-tunnel wrappers (udp.Association, icmp.Session) pass their
+    input through when no key is set, and Close drops the key: a closed wrapper
+    must refuse before it looks at the key. *)
+Theorem C01_closed_wrapper_refuses : forall w, wrap_use (wrap_close w) = WErr.
+Proof. exact closed_wrapper_refuses. Qed.
+Print Assumptions C01_closed_wrapper_refuses.
+
+Theorem C01_refuted_swapped_wrapper : forall w, wrap_use_swapped (wrap_close w) = WPassThrough.
+Proof. exact swapped_wrapper_passes_after_close. Qed.
+Print Assumptions C01_refuted_swapped_wrapper.
+
+Definition passthrough_ok (p : string * string * string * bool * bool) : bool :=
+  let '(_, _, _, closed_first, _) := p in closed_first.
+
+Definition key_write_ok (w : string * string * N) : bool :=
+  let '(_, how, class) := w in
+  negb (N.eqb class 0) && (negb (String.eqb how "field") || N.eqb class 1 || N.eqb class 2).
+
+(** (2) every handler that installs a session key from a network frame
+    returns early once the open handshake has completed (otherwise a replayed
+    clear-text *_OPEN_ACK installs a key an outsider can compute); (3) the
+    nonce given to the AEAD is the array at the front of the frame, the one
+    the direction and window tests read, with no associated data. *)
+Theorem C01_wiring_facts :
+  gen_c01_passthrough <> [] /\ forallb passthrough_ok gen_c01_passthrough = true /\
+  gen_c01_key_writes <> [] /\ forallb key_write_ok gen_c01_key_writes = true /\
+  gen_c01_aead_seal_calls = 1 /\ gen_c01_aead_open_calls = 1 /\
+  gen_c01_aead_seal_nonce_is_built_nonce = true /\ gen_c01_aead_seal_nonce_is_frame_prefix = true /\
+  gen_c01_aead_seal_no_associated_data = true /\
+  gen_c01_aead_open_nonce_is_frame_prefix = true /\ gen_c01_aead_open_nonce_is_the_tested_nonce = true /\
+  gen_c01_aead_open_no_associated_data = true.
+Proof. repeat split; try reflexivity; discriminate. Qed.
+Print Assumptions C01_wiring_facts.
